@@ -184,6 +184,10 @@ func ruleC04b(c *Ctx) {
 		for _, r := range returnsOf(fn) {
 			for _, s := range p.sources(r.Results[0], provOpt{ThroughCells: true, ThroughCalls: 2}) {
 				if _, isMake := s.(*ssa.MakeMap); !isMake {
+					// the result of another PathProcessor's ExtractParameters, handed on (a wrapper): that one is examined itself
+					if call, isCall := s.(*ssa.Call); isCall && call.Call.IsInvoke() && call.Call.Method.Name() == "ExtractParameters" {
+						continue
+					}
 					ok, why = false, "returns "+s.String()
 				}
 			}
